@@ -44,6 +44,22 @@ func c03Wire(r *fw.R, labels [][]byte) {
 	if !p.OK || !p.FQDN || !rn.Equal(p.Labels, labels) {
 		r.Fail("text-ambiguous", "wire %x unpacked to %q, which the reference reader reads as labels %q ok=%v fqdn=%v", w, s, p.Labels, p.OK, p.FQDN)
 	}
+	// "\DDD for non-printable octets": the presentation form is printable ASCII (and the escaped blank) throughout (an octet outside
+	// 0x20..0x7e can then only have been written as \DDD, since the reference reader gave the labels back)
+	for i := 0; i < len(s); i++ {
+		if s[i] < 0x20 || s[i] > 0x7e { // a blank is a special character: it comes as backslash + blank
+			r.Fail("nonprintable-raw", "wire %x unpacked to %q: octet %#02x stands raw in the text instead of as \\DDD", w, s, s[i])
+			break
+		}
+	}
+	if ns := dns.Name(s).String(); true {
+		for i := 0; i < len(ns); i++ {
+			if ns[i] < 0x20 || ns[i] > 0x7e {
+				r.Fail("nonprintable-raw/name-string", "Name(%q).String() = %q: octet %#02x stands raw in the text", s, ns, ns[i])
+				break
+			}
+		}
+	}
 	back, err := packName(s)
 	if err != nil || !bytes.Equal(back, w) {
 		r.Fail("wire-roundtrip", "wire %x → %q → PackDomainName = %x, %v", w, s, back, err)
